@@ -618,6 +618,9 @@ class ScipyMinimizeAlgorithm(
         states = {}
         for idx in dataset.indices:
             states[idx] = state.clone(disable_auto_fork=True)
+            # individual latent values left in the model's state (e.g. by the fit that was just run, for other
+            # individuals) must not be taken as the starting point of this individual
+            states[idx].put_individual_latent_variables(None)
             model.put_data_variables(states[idx], datasets[idx])
             # Get an individual initial value for minimisation
             model.put_individual_parameters(states[idx], datasets[idx])
